@@ -298,6 +298,7 @@ func exhaustiveCert(g *gen) {
 			subs = append(subs, s)
 		}
 		batch("c07-exh", plainRoot(), subs)
+		knownWitnesses()
 	case "c16":
 		var subs []Cfg
 		gns := []*[2]string{nil, {"dns", "auth.example"}, {"mail", "a@auth.example"}, {"url", "http://auth.example"}, {"ip", "10.1.2.3"}}
@@ -395,4 +396,14 @@ func exhaustiveCert(g *gen) {
 			}
 		}
 	}
+}
+
+// witnesses of the recorded findings (known_findings.json); they stay in the stream so that the findings are re-observed on
+// every run and a repair shows up as "not reproduced"
+func knownWitnesses() {
+	s1 := plainSub(1)
+	s1.Exts = []Ext{{Kind: "bc", Crit: 1, HasContent: true, HasCa: true, Ca: true, HasPl: true, PathLen: 0}}
+	s2 := plainSub(2)
+	s2.Exts = []Ext{{Kind: "cp", Crit: -1, HasContent: true, Pols: []Policy{{Oid: "1.2.3.4", HasQuals: true, Quals: []Qualifier{{Notice: &UserNotice{}}}}}}}
+	batch("c07-known-findings", plainRoot(), []Cfg{s1, s2})
 }
